@@ -51,6 +51,24 @@ def expired():
         return False
 
 
+def failing_renderings(rec):
+    """someone renders an UNFINISHED expression (an operator still missing an operand, a variable without a name):
+    every rendering of it raises, as documented -- and leaves nothing behind that changes how other trees print"""
+    from mathy_core import expressions as E
+
+    for mk in (lambda: E.AddExpression(E.VariableExpression("x"), None), lambda: E.MultiplyExpression(E.ConstantExpression(2), E.VariableExpression(None)),
+               lambda: E.EqualExpression(None, E.ConstantExpression(1))):
+        t = mk()
+        t.set_changed()
+        for read in ("terminal_text", "raw", "__str__", "to_math_ml"):
+            try:
+                v = getattr(t, read)
+                if callable(v):
+                    v()
+            except Exception:
+                rec.arm("rendering:failed-on-an-unfinished-expression")
+
+
 def step(rec, node, rule, check_original=False, listed=False):
     """One search-agent step: clone the whole tree via the node, apply the rule to the
     copy.  Returns the new root or None if the application raised.  With
@@ -169,6 +187,8 @@ def inplace_chain(rec, root, rules, rng, steps=6, big=False, on_step=None):
                 except Exception:
                     pass
             rec.arm("inplace:renderings-read-between-steps")
+            if rng.random() < 0.2:
+                failing_renderings(rec)
         cands = []
         # the listing is usually made on the whole tree, sometimes only on a part of it (one side of
         # an equation, one operand): find_nodes numbers the nodes of whatever it was given
